@@ -514,6 +514,78 @@ def check_raw_interpolation(ctx, model):
     ctx.setcount('interpolation_sites', nsites)
 
 
+# ---- token-level constructs: the round trip in the small -------------------------------------------------------------------------------------------
+
+SIMPLE_NT = {'string': ['abc', '1 day', '5', '1.5 hours', '-1 day', "it's", '0.5'], 'quote_string': ['abc', '5'], 'dquote_string': ['abc', 'a b'],
+             'id': ['abc', 'col1'], 'integer': [5, 0], 'float': [1.5]}
+WRAP = {'expr': ['SELECT'], 'constant': ['SELECT'], 'identifier': ['SELECT']}
+
+
+def check_token_level_roundtrip(ctx, model):
+    """For every production that builds a node directly from tokens (keywords plus string / name / number values): the action is interpreted on sample values
+    (real constructors of the AST classes, interpreted too), the node's printer is interpreted, the printed text is lexed with the simulated ordered lexer, and
+    the token sequence is run through the reconstructed LALR tables: it must be accepted and reduced by the same action again.  Nothing is executed."""
+    import glob
+    import os
+    from ..interp import Interp, Obj, Raised, Env
+    from ..grammar import prod_record
+    from ..lalr import tables_for, lr_parse
+    from ..lexmodel import spelling
+    ast_files = tuple(sorted(f for f in ctx.src.py_files('mindsdb_sql/parser') if '/ast/' in f))
+    tok_stubs = C04.lexer_token_stubs(ctx)
+    nrows = nprod = 0
+    for d in DIALECTS:
+        g = load_dialect(ctx.src, d)
+        t = tables_for(ctx.src, d)
+        m = master_for(g.lexer)
+        for p in g.productions[1:]:
+            if p.func is None or p.name not in WRAP:
+                continue
+            if not (all(s_ in g.tokens or s_ in SIMPLE_NT for s_ in p.rhs) and any(s_ in SIMPLE_NT for s_ in p.rhs)):
+                continue
+            if not any(isinstance(x, ast.Return) and isinstance(x.value, ast.Call) and isinstance(x.value.func, ast.Name) and x.value.func.id[:1].isupper()
+                       for x in ast.walk(p.func)):
+                continue
+            nprod += 1
+            choices = [SIMPLE_NT[s_] if s_ in SIMPLE_NT else [spelling(g.lexer, s_) or s_] for s_ in p.rhs]
+            for values in itertools.product(*choices):
+                it = Interp.for_file(ctx.src, g.file, {}, dict(tok_stubs), also=ast_files)
+                label = f'{d}:[{p}]:{"/".join(map(str, values))}'
+                try:
+                    node = it.call_function(p.func, [Obj('Parser'), prod_record(p, list(values))], {}, Env())
+                    if not isinstance(node, Obj):
+                        continue
+                    pr = it.methods.get(node.kind, {}).get('to_string')
+                    if pr is None:
+                        continue
+                    text = it.call_function(pr, [node], {}, Env())
+                except Raised as r:
+                    if r.exc_name == 'ParsingException':
+                        continue            # the parser refuses this value: nothing to print
+                    ctx.ob('C01.token-level-roundtrip', label, False, f'{label}: building / printing the node raises {r.exc_name}', file=g.file, line=p.line)
+                    continue
+                except AnalysisError as e:
+                    ctx.note(f'{label}: not interpretable ({str(e)[:90]})')
+                    break
+                nrows += 1
+                types = m.types(text) if isinstance(text, str) else None
+                ok, reds = (False, [])
+                if types is not None:
+                    ok, reds = lr_parse(t, WRAP[p.name] + list(types))
+                def builds(q):
+                    return t.P[q].func is p.func or (t.P[q].func is not None and any(
+                        isinstance(x, ast.Call) and isinstance(x.func, ast.Name) and x.func.id == node.kind for x in ast.walk(t.P[q].func)))
+                same = ok and any(builds(q) for q in reds)
+                ctx.ob('C01.token-level-roundtrip', label, bool(same),
+                       f'{label}: the node prints as `{text}`, which lexes to {types}; the {d} parser {"accepts it but with rules that build no " + node.kind if ok else "does not accept it"} '
+                       f'(`{" ".join(WRAP[p.name])} <text>` through the LALR tables): the printed statement does not re-parse to the same tree',
+                       file=g.file, line=p.line, witness=f"select {text}" if isinstance(text, str) else None)
+    ctx.setcount('token_level_productions', nprod)
+    ctx.setcount('token_level_rows', nrows)
+    ctx.floor('token_level_productions', 10)
+    ctx.floor('token_level_rows', 40)
+
+
 # ---- leaves ------------------------------------------------------------------------------------------------------------------
 
 def check_leaves(ctx, model):
@@ -572,6 +644,7 @@ def run(ctx):
     check_independent_fields(ctx, model)
     check_raw_interpolation(ctx, model)
     check_leaves(ctx, model)
+    check_token_level_roundtrip(ctx, model)
     # codec (shared with C04): string literals and identifiers
     sub_findings = []
     from ..core import Ctx
